@@ -64,4 +64,7 @@ theorem evaluate_text :
       = "result = self.expr.evaluate(point); if isinstance(result, np.ndarray):\n    return float(result.item()); return float(result)" := by
   decide
 
+/-- `Constraint.get_variables()` is the collector of the normalised expression (`Py.getVars` of `c.expr`) -/
+theorem getVariables_text : constraintGetVariablesTextG = "return self.expr.get_variables()" := by decide
+
 end Optyx.Props.ConstraintTie
